@@ -554,7 +554,8 @@ register('C07', [l0_suite(['order', 'layer', 'layerpair'], monitor=c07_monitor,
                  lambda ctx: l2_suite('multi', native=False, name='l2-multi', quick=60, thorough=1500,
                                       determined='a statement addressing a key returns something else than the rule fixes (a second INSERT of an equal key must be refused whatever its write time; equal keys address one row)')(ctx)],
          ['SQLite never passes NaN to a virtual table (it converts NaN to NULL)', 'int64 / binary64 value ranges'])
-register('C17', [l0_suite(['lww'], monitor=l0_determined('the merged value is not the one the kv rule fixes (latest time wins; a tombstone beats every value; the earliest tombstone is kept)', domain_only=True)),
+register('C17', [l0_suite(['probe'], quick=20, thorough=20, monitor=probe_monitor('tombstone-')),
+                 l0_suite(['lww'], monitor=l0_determined('the merged value is not the one the kv rule fixes (latest time wins; a tombstone beats every value; the earliest tombstone is kept)', domain_only=True)),
                  l1_suite(['plain', 'cb', 'json'], monitor=determined_result_monitor('kv package: a Get / cursor / Diff / TraceHistory result differs from what the rule fixes for this history'))],
          ['kv default configuration: int keys, string values; gob/JSON codecs are third-party'])
 register('C01', [l0_suite(['merge_rows', 'merge_values', 'merge_laws', 'probe'], monitor=chain(c01_laws_monitor, probe_monitor('reopening-a-quiescent-table'))),
@@ -1425,7 +1426,8 @@ register('C05', [l2_suite('tx', name='l2-tx'), l2_suite('multi', native=False, e
 register('C12', [l2_suite('changes', native=False, name='l2-changes', determined='s3db_changes / a read of a version returns other rows than the two versions fix'),
                  l1_suite(['rows', 'plain'], name='l1f', quick=300, monitor=determined_result_monitor('a diff / open under storage faults neither fails nor returns the complete answer'))],
          ['storage faults around the two version opens of a diff are injected at the kv level (L1); the SQL level runs fault-free'])
-register('C11', [l2_suite('changes', native=False, name='l2-changes', determined='reading a recorded version list returns other rows than were visible when it was recorded'),
+register('C11', [l0_suite(['probe'], quick=20, thorough=20, monitor=probe_monitor('historic-open')),
+                 l2_suite('changes', native=False, name='l2-changes', determined='reading a recorded version list returns other rows than were visible when it was recorded'),
                  l2_suite('tx', name='l2-tx', quick=40, thorough=1000,
                           determined='s3db_version() answers although the connection sees uncommitted rows that no version holds (or refuses / differs where a version identifies the visible rows)'),
                  lambda ctx: l2_suite('faults', name='l2-faults', quick=80, thorough=1500,
@@ -1469,8 +1471,8 @@ register('C14', [l1_suite(['rows', 'plain', 'cb'], name='l1f', quick=250,
 def c18_monitor(ctx, res, fn, case, impl, model, spec):
     t = case.split()
     if fn == 'probe':
-        if t[2].startswith('reopening-a-quiescent'):
-            return      # (a probe of C01)
+        if t[2].startswith('reopening-a-quiescent') or t[2].startswith('historic-open') or t[2].startswith('tombstone-'):
+            return      # (probes of C01 / C11)
         if impl[:1] != ['ok']:
             res.property_failures.append(dict(suite=res.name, case=case, impl=' '.join(impl)[:600],
                                               what='probe ' + t[2] + ': ' + ' '.join(impl[1:])[:300]))
